@@ -871,6 +871,71 @@ let run_line c (l : string) seq =
         let (w, e) = calc_potential_energy fo m m.ws q flag in
         setw c w; line "o" seq "pe" (fun () -> od e);
         if flag then spec_try (fun () -> let wb = whole_body fo c.sp.snodes c.sp.ssph c.sp.sndof m.gravity q (zeros n_qd) (zeros n_qd) in line "s" seq "pe" (fun () -> od wb.wb_pe))
+      | "fpe" ->
+        let flag = integer t <> 0 in let q = vec t in let qd = vec t in let pt = v3 t in let smallw = num t in
+        let (w, f) = fpe_state fo m m.ws q qd pt smallw flag in
+        setw c w;
+        let m3l a = [[a.m00; a.m01; a.m02]; [a.m10; a.m11; a.m12]; [a.m20; a.m21; a.m22]] in
+        line "i" seq "cond" (fun () -> od (max (cond_est (m3l f.f_JC0)) (cond_est (m3l f.f_JP0))));
+        line "o" seq "fpe_k" (fun () -> ov3 f.f_k); line "o" seq "fpe_r0C0" (fun () -> ov3 f.f_r0C0);
+        line "o" seq "fpe_v0C0" (fun () -> ov3 f.f_v0C0); line "o" seq "fpe_HC0" (fun () -> ov3 f.f_HC0);
+        line "o" seq "fpe_JC0" (fun () -> om3 f.f_JC0);
+        (match f.f_w0C0 with Some x -> line "o" seq "fpe_w0C0" (fun () -> ov3 x) | None -> line "o" seq "fpe_w0C0" (fun () -> pf " singular"));
+        line "o" seq "fpe_r0P0" (fun () -> ov3 f.f_r0P0); line "o" seq "fpe_HP0" (fun () -> ov3 f.f_HP0);
+        line "o" seq "fpe_JP0" (fun () -> om3 f.f_JP0);
+        (match f.f_w0P0 with Some x -> line "o" seq "fpe_w0P0" (fun () -> ov3 x) | None -> line "o" seq "fpe_w0P0" (fun () -> pf " singular"));
+        line "o" seq "fpe_n" (fun () -> ov3 f.f_n); line "o" seq "fpe_u" (fun () -> ov3 f.f_u); line "o" seq "fpe_h" (fun () -> od f.f_h);
+        (match f.f_w0C0n with
+         | Some w0n -> line "o" seq "fpe_proj" (fun () -> od f.f_nJC0n; od f.f_v0C0u; od f.f_v0C0k; od w0n)
+         | None -> line "o" seq "fpe_proj" (fun () -> pf " singular"));
+        (match fpe_solve fo f (Float.pi *. 0.25) fpe_iters with
+         | Some ((phi, fb), r0f0) ->
+           line "o" seq "fpe_phi" (fun () -> od phi; od fb); line "o" seq "fpe_r0F0" (fun () -> ov3 r0f0)
+         | None -> line "o" seq "fpe_phi" (fun () -> pf " singular"); line "o" seq "fpe_r0F0" (fun () -> pf " singular"));
+        (* definitions (L3): whole-body inertia about the centre of mass as the sum over the bodies of
+           R Ic R^T + m dx dx^T, d = com - c_i; angular momentum about the ground projection *)
+        if flag then spec_try (fun () ->
+          let nodes = c.sp.snodes in
+          let wb = whole_body fo nodes c.sp.ssph c.sp.sndof m.gravity q qd (zeros n_qd) in
+          let ks = kstates fo nodes c.sp.ssph c.sp.sndof q qd (zeros n_qd) in
+          let idx = List.filter (fun i -> attached_movable nodes (nat_of_int (List.length nodes + 1)) (nat_of_int i)) (List.init (List.length nodes) (fun i -> i)) in
+          let jc = List.fold_left (fun a i ->
+            let nd = List.nth nodes i and k = List.nth ks i in
+            let iw = m3mul fo (m3mul fo k.kR nd.ninertia) (m3T k.kR) in
+            let d = v3sub wb.wb_com (k_point fo k nd.ncom) in
+            let dx = v3crossm fo d in
+            m3add fo a (m3add fo iw (m3scale fo nd.nmass (m3mul fo dx (m3T dx))))) (m3zero fo) idx in
+          line "s" seq "fpe_r0C0" (fun () -> ov3 wb.wb_com); line "s" seq "fpe_v0C0" (fun () -> ov3 wb.wb_vel);
+          line "s" seq "fpe_HC0" (fun () -> ov3 wb.wb_L); line "s" seq "fpe_JC0" (fun () -> om3 jc);
+          let gn = sqrt (v3dot m.gravity m.gravity) in let k = v3scale (-1. /. gn) m.gravity in
+          let hgt = v3dot k (v3sub wb.wb_com pt) in
+          let r0p0 = v3sub wb.wb_com (v3scale hgt k) in
+          line "s" seq "fpe_h" (fun () -> od hgt); line "s" seq "fpe_r0P0" (fun () -> ov3 r0p0);
+          let rp = v3sub wb.wb_com r0p0 in
+          line "s" seq "fpe_HP0" (fun () -> ov3 (v3add wb.wb_L (v3cross rp (v3scale wb.wb_mass wb.wb_vel))));
+          let rx = v3crossm fo rp in
+          line "s" seq "fpe_JP0" (fun () -> om3 (m3add fo jc (m3scale fo wb.wb_mass (m3mul fo rx (m3T rx))))));
+        (* residuals on the implementation's results: J w = H at both points, the foot placement point on the
+           caller's plane, at h tan(phi) from the projection along u, u and n perpendicular to k *)
+        let g3 lab = match impl_get seq lab with Some [a; b; cc] -> Some { vx = a; vy = b; vz = cc } | _ -> None in
+        let g9 lab = match impl_get seq lab with
+          | Some [a0; a1; a2; a3; a4; a5; a6; a7; a8] -> Some { m00 = a0; m01 = a1; m02 = a2; m10 = a3; m11 = a4; m12 = a5; m20 = a6; m21 = a7; m22 = a8 } | _ -> None in
+        let n3 v = sqrt (v3dot v v) in
+        (match g3 "fpe_k", g3 "fpe_r0P0", g3 "fpe_r0F0", g3 "fpe_u", g3 "fpe_n", impl_get seq "fpe_h", impl_get seq "fpe_phi", g3 "fpe_r0C0" with
+         | Some k, Some p0, Some f0, Some u, Some n, Some [h], Some [phi; _], Some c0 ->
+           let sc = 1. +. n3 p0 +. n3 f0 +. n3 pt in
+           line "c" seq "fpe_projection_on_plane" (fun () -> od (abs_float (v3dot (v3sub p0 pt) k)); od sc);
+           line "c" seq "fpe_point_on_plane" (fun () -> od (abs_float (v3dot (v3sub f0 pt) k)); od sc);
+           line "c" seq "fpe_projection_below_com" (fun () -> od (n3 (v3sub (v3sub c0 p0) (v3scale h k))); od sc);
+           let off = v3sub (v3sub f0 p0) (v3scale (h *. tan phi) u) in
+           line "c" seq "fpe_point_offset" (fun () -> od (n3 off); od (sc +. abs_float (h *. tan phi)));
+           line "c" seq "fpe_frame" (fun () -> od (abs_float (v3dot u k) +. abs_float (v3dot n k) +. abs_float (v3dot u n)); od 1.)
+         | _ -> ());
+        (match g9 "fpe_JC0", g3 "fpe_w0C0", g3 "fpe_HC0", g9 "fpe_JP0", g3 "fpe_w0P0", g3 "fpe_HP0" with
+         | Some jc, Some wc, Some hc, Some jp, Some wp, Some hp ->
+           line "c" seq "fpe_avg_angvel_com" (fun () -> od (n3 (v3sub (m3v fo jc wc) hc)); od (1. +. n3 hc));
+           line "c" seq "fpe_avg_angvel_proj" (fun () -> od (n3 (v3sub (m3v fo jp wp) hp)); od (1. +. n3 hp))
+         | _ -> ())
       | "updboth" ->
         let q = vec t in let qd = vec t in let qdd = vec t in
         let w1 = update_kinematics fo m m.ws q qd qdd in
